@@ -335,6 +335,10 @@ func Consensus(trees <-chan Trees, cutoff float64) (*Tree, error) {
 		nbtrees++
 	}
 
+	if nbtrees == 0 {
+		return nil, errors.New("no tree to compute the consensus of")
+	}
+
 	// We take the bipartitions that are present in more than cutoff trees and less
 	// than or equal the number of trees
 	// And we add it to the startree
